@@ -759,9 +759,9 @@ func init() {
 		Level: "exploration",
 		Cases: func(tier string) int {
 			if tier == "thorough" {
-				return 400000
+				return 5000000
 			}
-			return 30000
+			return 300000
 		},
 		Run:  runC16,
 		Rule: "each case = one seeded value (Map decoded from generated XML, JSON-shaped Map with XML-name keys incl. attribute/text entries, nulls, nested and empty lists, MapSeq decoded from a sequence document, list of 1..4 Maps, or an AnyXml value) x drawn prefix/indent x K iteration policies (ascending, descending, rotations, seeded shuffles; K=8 quick, 24 thorough) imposed on EVERY range-over-map inside mxj through the generated MapIter seam; every encoder entry point is run under every policy and twice under the first (D1), outputs are tokenised for key order (D2) and compact-vs-indent token equality (D3), writer forms run against a simulated sink that accepts all / short-writes / fails at a drawn byte (D4), Maps string and simulated-disk file forms are compared with the concatenation of per-Map encodings (D5). Non-trivial = a non-ascending order was imposed on at least one map range while encoding; distinct = distinct (value, policy set).",
